@@ -155,16 +155,18 @@ def _weighted(plan):
 
 def replay_e1(path, monitor):
     """Re-execute a recorded violating schedule without the explorer and print the trace."""
-    common.bootstrap("mini")
-    engine.install_memo()
     with open(path) as f:
         data = json.load(f)
     r = data["replay"]
     d = r["scenario"]
+    common.bootstrap(d.get("suite", "mini"))
+    engine.install_memo()
     scn = engine.Scenario(d["name"], d["restriction"], d["nets"], lazy=d["lazy"], vm_strs=d["vm_strs"], params=d["params"],
                           D=d["D"], O=d["O"], shared=[tuple(i) for i in d["shared"]],
                           own={k: [tuple(i) for i in v] for k, v in d["own"].items()}, suite=d["suite"], previous=d["previous"],
-                          persistent=tuple(d["persistent"]) if d["persistent"] else None)
+                          persistent=tuple(d["persistent"]) if d["persistent"] else None, run_params=d.get("run_params"))
+    if d.get("watch"):
+        scn.watch = tuple(d["watch"])
     x = engine.execute(scn, r["choices"])
     for line in engine.compact_trace(x.trace):
         print(line)
